@@ -87,7 +87,7 @@ impl Epoch {
                     days_in_year -= 1.0;
                 }
             }
-            if days_in_year < 0.0 {
+            while days_in_year < 0.0 {
                 // We've underflowed the number of days in a year because of the leap years
                 year -= 1;
                 days_in_year += DAYS_PER_YEAR_NLD;
@@ -103,12 +103,16 @@ impl Epoch {
                 }
             }
             // Check for greater than or equal because the days are still zero indexed here.
-            if (days_in_year >= DAYS_PER_YEAR_NLD && !is_leap_year(year))
+            while (days_in_year >= DAYS_PER_YEAR_NLD && !is_leap_year(year))
                 || (days_in_year >= DAYS_PER_YEAR_NLD + 1.0 && is_leap_year(year))
             {
                 // We've overflowed the number of days in a year because of the leap years
-                year += 1;
                 days_in_year -= DAYS_PER_YEAR_NLD;
+                // The leap day of the year we are leaving was counted in the previous loop.
+                if is_leap_year(year) {
+                    days_in_year -= 1.0;
+                }
+                year += 1;
             }
         }
 
